@@ -37,7 +37,7 @@ def corrupt(ev, rng):
         ev["_corrupted"] = "outs.h.primary -> none"
         return ev
     if choice == 2 and acc and acc[0]["prim"]["created"] and acc[0]["prim"]["produced"] and \
-            acc[0]["prim"]["kind"] in ("roundtrip", "verify", "det") and not ev.get("exempt"):
+            acc[0]["prim"]["kind"] in ("roundtrip", "verify", "det") and (ev.get("obs") or {}).get("@type") != "SlhDsaPrivateKey":
         acc[0]["prim"]["consumed"] = False
         ev["_corrupted"] = "outs.prim.consumed -> false"
         return ev
@@ -135,7 +135,7 @@ def run(ctx):
                        "reduced domain (thorough); (R) TLC-enumerated abstract keysets (all of <= 1 key, all 2-key keysets "
                        "with one full-domain key, all 3-key keysets over the reduced domain; quick: seeded sample + every "
                        "Valid 3-key keyset + their single-mutation neighbours) x {secret, public} material, each pushed "
-                       "through 12 entry points")
+                       "through 15 entry points")
     ctx.assumptions += ["byte-level input space is explored (planned mutations, fuzzing), not exhausted",
                         "abstract ids are enumerated up to renaming; concrete ids drawn from {0,1,2,2^31-1,2^31,2^32-1,...}"]
     only = set(filter(None, os.environ.get("VERIF_C14_ONLY", "").split(",")))   # development aid: run a subset of stages
@@ -159,9 +159,10 @@ def run(ctx):
         return
     # ---------------- (M)
     if ctx.thorough and on("M"):
-        ctx.model_check("MC_KeysetValidate", "MC_KeysetValidate", stage="M:<=3 keys, reduced per-key domain", workers=6, timeout=2400)
+        ctx.model_check("MC_KeysetValidate", "MC_KeysetValidate", stage="M:<=3 keys, reduced per-key domain", workers=2, timeout=3000)
     if on("M"):
-        ctx.model_check("MC_KeysetValidate", "MC_KeysetValidate_quick", stage="M:<=2 keys, full per-key domain", workers=2)
+        ctx.model_check("MC_KeysetValidate", "MC_KeysetValidate_quick", stage="M:<=2 keys, full per-key domain", workers=1)
+        ctx.model_check("MC_KeysetValidate", "MC_KeysetValidate_three", stage="M:<=3 keys, small per-key domain", workers=1)
     if on("structural"):
         stage_structural(ctx, drv, tlc_seed)
     if on("keys"):
@@ -188,7 +189,7 @@ def stage_structural(ctx, drv, tlc_seed):
                     lambda e: dict(mode="structural", n=e["n"], row=json.loads(rows[e["n"] - 1])))
     if not mism:
         ncase, nacc = expectations(ctx, tr)
-        ctx.stage("R:structural", cases=ncase, entry_points=12, accepted_loads=nacc)
+        ctx.stage("R:structural", cases=ncase, entry_points=15, accepted_loads=nacc)
     ctx.cov["traces_validated_against_impl"] += n
     lines = open(tr).read().splitlines()
     for k in (len(lines) // 3, len(lines) // 2):
@@ -317,7 +318,7 @@ MANIFEST = dict(
     text=("KeysetValidate.tla states the keyset rule of the property, transcribes keyset/validation.go, models every "
           "reader entry point and the minimum-strength table. TLC checks the rule/procedure equivalence and the "
           "well-formedness of every accepted outcome on all abstract keysets within the bounds, then writes the abstract "
-          "keysets and key-level boundary cases that the driver instantiates with real keys and pushes through all 12 "
+          "keysets and key-level boundary cases that the driver instantiates with real keys and pushes through all 15 "
           "entry points; every recorded outcome (error / handle projection / panic, primitive creation and use) is judged "
           "by TLC."),
     note=("Structural level exhaustive within the stated bounds; byte level explored (planned mutations, fuzzing as an "
